@@ -20,15 +20,32 @@
    together with the last bytes is the documented contract, not a defect; a read that ends
    exactly at the end of the file returns no EOF).  For an empty buffer io.Reader permits
    both (0, nil) and -- at the end of the data, like bytes.Reader -- (0, EOF); before the end
-   only (0, nil).  *)
+   only (0, nil).
+
+   CONTEXTS.  Read uses the reader's own context; CtxReadFull carries a context of the caller's,
+   which is part of the call alphabet (cx):
+     "own"    Read: the context the reader was created with
+     "bg"     CtxReadFull with a context that is never cancelled
+     "after"  CtxReadFull with a context of its own that the caller cancels as soon as the call has
+              returned (the usual `ctx, cancel := context.WithTimeout(..); defer cancel()`)
+     "before" CtxReadFull with a context that is already cancelled when the call is made
+   A context governs ONE call.  `dead` counts the per-call contexts that have been cancelled so far;
+   no action reads it: whatever contexts earlier calls were given and whatever happened to them
+   afterwards, Read / CtxReadFull / Seek / WriteTo behave as the byte reader (action property
+   DeadContextsIrrelevant).  Only the call that is itself handed a cancelled context may fail with
+   the context's error; it may deliver a prefix of what it was asked for before it notices (the
+   documentation promises nothing more), and the reader stays a byte reader at the position behind
+   the bytes it delivered (ReadCancelled).  *)
 EXTENDS Integers, Sequences, FiniteSets, TLC, Json
 
 CONSTANTS MaxSize,   \* file sizes 0..MaxSize
           MaxK,      \* read buffer lengths 0..MaxK
           Slack      \* seek offsets range over -size-Slack .. size+Slack
 
-VARIABLES size, off, res
-vars == <<size, off, res>>
+VARIABLES size, off, res,
+          dead       \* number of per-call contexts cancelled so far (saturates at MaxDead); never read
+vars == <<size, off, res, dead>>
+MaxDead == 1
 
 Min(a, b) == IF a < b THEN a ELSE b
 Max(a, b) == IF a > b THEN a ELSE b
@@ -63,14 +80,36 @@ Target(o, w) == CASE w = SeekStart   -> o
                   [] w = SeekEnd     -> size + o
                   [] OTHER           -> -1
 
-NoRes == [op |-> "Init", k |-> 0, n |-> 0, lo |-> 0, eofs |-> {FALSE}, err |-> FALSE, ret |-> 0]
+\* cerr: the call failed with the error of the (cancelled) context it was given
+NoRes == [op |-> "Init", cx |-> "own", k |-> 0, n |-> 0, lo |-> 0, eofs |-> {FALSE}, err |-> FALSE, ret |-> 0, cerr |-> FALSE]
 
-Init == size \in 0..MaxSize /\ off = 0 /\ res = NoRes
+Init == size \in 0..MaxSize /\ off = 0 /\ res = NoRes /\ dead = 0
 
-\* Read / CtxReadFull (api is "Read" or "CtxReadFull": same contract, different context plumbing)
-Read(api, k) ==
-    /\ res' = [op |-> api, k |-> k, n |-> ReadN(off, k), lo |-> off, eofs |-> ReadEofs(off, k), err |-> FALSE, ret |-> 0]
+Contexts == {"own", "bg", "after", "before"}
+\* the context handed to this call is cancelled by the time the call has returned
+Dies(cx) == cx \in {"after", "before"}
+Bury(cx) == dead' = IF Dies(cx) /\ dead < MaxDead THEN dead + 1 ELSE dead
+
+\* Read / CtxReadFull with a context that is alive during the call (api is "Read" or "CtxReadFull": same
+\* contract, different context plumbing).  What happens to the context afterwards is the caller's business.
+ReadCx(api, cx, k) ==
+    /\ res' = [op |-> api, cx |-> cx, k |-> k, n |-> ReadN(off, k), lo |-> off, eofs |-> ReadEofs(off, k), err |-> FALSE,
+               ret |-> 0, cerr |-> FALSE]
     /\ off' = off + ReadN(off, k)
+    /\ Bury(cx)
+    /\ UNCHANGED size
+Read(api, k) == ReadCx(api, IF api = "Read" THEN "own" ELSE "bg", k)
+
+\* CtxReadFull with an already cancelled context: either it does not need the context (everything was at hand)
+\* and completes like any read, or it fails with the context's error after delivering n <= ReadN bytes -- the
+\* bytes content[off .. off+n), and the position moves behind exactly those.
+ReadCancelled(k, n, cerr) ==
+    /\ n \in 0..ReadN(off, k)
+    /\ ~cerr => n = ReadN(off, k)
+    /\ res' = [op |-> "CtxReadFull", cx |-> "before", k |-> k, n |-> n, lo |-> off,
+               eofs |-> IF cerr THEN {FALSE} ELSE ReadEofs(off, k), err |-> FALSE, ret |-> 0, cerr |-> cerr]
+    /\ off' = off + n
+    /\ Bury("before")
     /\ UNCHANGED size
 
 \* Seek: error iff unknown whence or negative target (position unchanged); any target >= 0 is
@@ -78,22 +117,25 @@ Read(api, k) ==
 Seek(o, w) ==
     LET t == Target(o, w) IN
     /\ IF w \notin Whences \/ t < 0
-         THEN /\ res' = [op |-> "Seek", k |-> 0, n |-> 0, lo |-> off, eofs |-> {FALSE}, err |-> TRUE, ret |-> 0]
+         THEN /\ res' = [op |-> "Seek", cx |-> "own", k |-> 0, n |-> 0, lo |-> off, eofs |-> {FALSE}, err |-> TRUE, ret |-> 0, cerr |-> FALSE]
               /\ off' = off
-         ELSE /\ res' = [op |-> "Seek", k |-> 0, n |-> 0, lo |-> t, eofs |-> {FALSE}, err |-> FALSE, ret |-> t]
+         ELSE /\ res' = [op |-> "Seek", cx |-> "own", k |-> 0, n |-> 0, lo |-> t, eofs |-> {FALSE}, err |-> FALSE, ret |-> t, cerr |-> FALSE]
               /\ off' = t
-    /\ UNCHANGED size
+    /\ UNCHANGED <<size, dead>>
 
 \* WriteTo: drains [off, size) into the writer, never reports EOF (bytes.Reader.WriteTo)
 WriteTo ==
-    /\ res' = [op |-> "WriteTo", k |-> 0, n |-> Avail(off), lo |-> off, eofs |-> {FALSE}, err |-> FALSE, ret |-> 0]
+    /\ res' = [op |-> "WriteTo", cx |-> "own", k |-> 0, n |-> Avail(off), lo |-> off, eofs |-> {FALSE}, err |-> FALSE, ret |-> 0, cerr |-> FALSE]
     /\ off' = Max(off, size)
-    /\ UNCHANGED size
+    /\ UNCHANGED <<size, dead>>
 
 Apis == {"Read", "CtxReadFull"}
 SeekOffsets == (0 - size - Slack)..(size + Slack)
 
-Next == \/ \E a \in Apis, k \in 0..MaxK : Read(a, k)
+\* the read calls with a live context: <<api, cx>>
+LiveCalls == {<<"Read", "own">>, <<"CtxReadFull", "bg">>, <<"CtxReadFull", "after">>}
+Next == \/ \E c \in LiveCalls, k \in 0..MaxK : ReadCx(c[1], c[2], k)
+        \/ \E k \in 0..MaxK, n \in 0..MaxK, ce \in BOOLEAN : ReadCancelled(k, n, ce)
         \/ \E o \in SeekOffsets, w \in Whences : Seek(o, w)
         \/ Seek(0, BadWhence)
         \/ WriteTo
@@ -102,14 +144,16 @@ Spec == Init /\ [][Next]_vars
 Bounded == off <= 2 * MaxSize + 2 * Slack     \* state constraint for model checking only
 
 (* ---- the property --------------------------------------------------------------------- *)
-TypeOK == /\ size \in 0..MaxSize /\ off \in Nat
+TypeOK == /\ size \in 0..MaxSize /\ off \in Nat /\ dead \in 0..MaxDead /\ res.cx \in Contexts /\ res.cerr \in BOOLEAN
           /\ res.n \in Nat /\ res.lo \in Nat /\ res.eofs \subseteq BOOLEAN /\ res.eofs # {}
 
 \* delivered bytes lie inside the file and start where the reader stood
 DeliveredInsideFile == res.n > 0 => res.lo + res.n <= size
 \* a read never returns fewer bytes than requested without signalling EOF, never signals EOF
 \* together with a full buffer, and EOF is only ever signalled when the reader ends at/after the end
-NoSilentShortRead == res.op \in Apis /\ res.n < res.k => res.eofs = {TRUE}
+NoSilentShortRead == res.op \in Apis /\ res.n < res.k => (res.eofs = {TRUE} \/ res.cerr)
+\* only a call that was itself given a cancelled context may fail with a context error
+CtxErrOnlyOwnCall == res.cerr => (res.op = "CtxReadFull" /\ res.cx = "before")
 FullReadNoEof     == res.op \in Apis /\ res.k > 0 /\ res.n = res.k => res.eofs = {FALSE}
 EofOnlyAtEnd      == TRUE \in res.eofs => res.lo + res.n >= size
 \* the closed forms are the reference semantics (bytes.Reader + io.ReadFull) at every reachable state
@@ -119,4 +163,12 @@ ClosedFormIsReference ==
 ErrLeavesPosition == res.err => off = res.lo
 SizeNeverChanges == [][size' = size]_vars
 ReadAdvances == [][res'.op \in Apis \cup {"WriteTo"} => off' = off + res'.n /\ res'.lo = off]_vars
+\* A cancelled EARLIER context does not affect later calls: the outcome of every call whose own context is alive
+\* (Read, CtxReadFull bg/after, Seek, WriteTo) is the byte-reader outcome, a function of (size, off) and the
+\* arguments alone -- in particular the same in states with dead = 0 and dead > 0.
+DeadContextsIrrelevant ==
+    [][/\ (res'.op \in Apis /\ res'.cx # "before") =>
+             (res'.n = ReadN(off, res'.k) /\ res'.eofs = ReadEofs(off, res'.k) /\ ~res'.cerr /\ ~res'.err)
+       /\ res'.op = "WriteTo" => (res'.n = Avail(off) /\ ~res'.cerr /\ ~res'.err /\ off' = Max(off, size))
+       /\ res'.op = "Seek" => ~res'.cerr]_vars
 =============================================================================
